@@ -176,6 +176,10 @@ void Server::Impl::onTcpReceived(const TcpServer::ConnToken &ct, Buffer &buff)
             auto sp_ctx = make_shared<Context>(wp_parent_, ct, conn->req_index++, req);
             handle(sp_ctx, 0);
 
+            //! handler 可能在回调中 stop()/cleanup() 了服务：连接已被释放，conn 不可再访问，也不应再处理后面的请求
+            if (!tcp_server_.isClientValid(ct))
+                break;
+
             //! close请求之后的数据不应该再被解析与处理
             if (is_last_request) {
                 buff.hasReadAll();
